@@ -145,3 +145,31 @@ def legacy_types(form):
             n["c"]["type"] = LEGACY_TYPES[t][i % len(LEGACY_TYPES[t])]
             i += 1
     return twin if i else form
+
+
+def clean_languages(form):
+    """the same form with every language name in a column header (and in default_language) in its cleaned spelling -- runs of white
+    space, tabs and non-breaking spaces are one space (C07/C13 establish that the spellings are the same language)"""
+    from vf import model
+    twin = model.clone(form)
+
+    def fix(cells):
+        for k in [k for k in cells if "::" in k]:
+            b, lang = k.split("::", 1)
+            nk = b + "::" + " ".join(lang.split())
+            if nk != k and nk not in cells:
+                cells[nk] = cells.pop(k)
+    for n, _ in model.walk(twin["nodes"]):
+        fix(n["c"])
+    for lst in twin.get("lists", []):
+        for r in lst["rows"]:
+            fix(r)
+    for key in ("osm", "ext"):
+        for r in twin.get(key, []) or []:
+            if isinstance(r, dict):
+                fix(r)
+    for where in ("settings", "args"):
+        dl = twin.get(where, {}).get("default_language")
+        if dl:
+            twin[where]["default_language"] = " ".join(dl.split()) or dl
+    return twin
